@@ -28,11 +28,15 @@ type Case struct {
 	Filler int `json:"filler,omitempty"`
 	// Caps: what the recording reporter says about itself (rec.CapsOf): advisory only
 	Caps int `json:"caps,omitempty"`
+	// Both: a plain AND a cached reporter are configured. Whichever of them is handed gauge values at
+	// all must end up with the last update as its most recent value.
+	Both bool `json:"both,omitempty"`
 }
 
 func gen(t *rapid.T) Case {
 	c := Case{Cached: rapid.Bool().Draw(t, "cached")}
 	c.Caps = rapid.SampledFrom([]int{0, 0, 0, 1, 2, 3}).Draw(t, "caps")
+	c.Both = rapid.IntRange(0, 5).Draw(t, "both") == 0
 	if rapid.IntRange(0, 7).Draw(t, "filler?") == 0 {
 		c.Filler = rapid.IntRange(14, 70).Draw(t, "filler")
 	}
@@ -63,7 +67,10 @@ func run(c Case) (pbt.Outcome, error) {
 	var out pbt.Outcome
 	log := &rec.Log{}
 	opts := tally.ScopeOptions{OmitCardinalityMetrics: true}
-	if c.Cached {
+	if c.Both {
+		opts.Reporter = &rec.Stats{L: log, Child: 1, Caps: rec.CapsOf(c.Caps)}
+		opts.CachedReporter = &rec.Cached{L: log, Child: 2, Caps: rec.CapsOf(c.Caps)}
+	} else if c.Cached {
 		opts.CachedReporter = &rec.Cached{L: log, Caps: rec.CapsOf(c.Caps)}
 	} else {
 		opts.Reporter = &rec.Stats{L: log, Caps: rec.CapsOf(c.Caps)}
@@ -135,6 +142,7 @@ func run(c Case) (pbt.Outcome, error) {
 		ended := 0
 		deliveries := 0
 		var last *rec.Event
+		lastOf := map[int]*rec.Event{} // per reporter (Both: 1 plain, 2 cached)
 		lastUpdEnd := -1
 		type passInfo struct{ start, end int }
 		open := map[string]int{}
@@ -170,6 +178,7 @@ func run(c Case) (pbt.Outcome, error) {
 				}
 				ev := e
 				last = &ev
+				lastOf[e.Thread] = &ev
 			}
 		}
 		// first pass that starts after the last update returned: at its end, and at the end of the
@@ -207,6 +216,11 @@ func run(c Case) (pbt.Outcome, error) {
 		if last == nil || math.Float64bits(last.F) != want {
 			errs.Addf("%s: at the end of the history the reporter's most recent value is %v, last update was %v (bits %016x)", name, describe(last), vs[len(vs)-1], want)
 		}
+		for r, l := range lastOf {
+			if math.Float64bits(l.F) != want {
+				errs.Addf("%s: reporter %d was handed gauge values and its most recent one at the end of the history is %v, last update was %v (bits %016x)", name, r, describe(l), vs[len(vs)-1], want)
+			}
+		}
 	}
 	fillerSeen := map[string]int{}
 	for _, e := range events {
@@ -224,6 +238,9 @@ func run(c Case) (pbt.Outcome, error) {
 	}
 	if c.Filler > 0 {
 		out.Classes = append(out.Classes, "many-gauges-in-one-scope")
+	}
+	if c.Both {
+		out.Classes = append(out.Classes, "plain-and-cached-reporter")
 	}
 	pre := sched.CountPreempted(res.Trace, "gauge.report:swapped", "gauge.Update:stored-value", "rep:gauge")
 	out.NonTrivial = pre > 0
